@@ -4,6 +4,7 @@
 # - then applies the patch to /repo, runs ./check <ID> (quick), undoes it
 set -u
 P=$1; CRATE=$2; ID=${3:-$(echo $P | tr a-z A-Z)}
+[ "$CRATE" = "-" ] && CRATE=$(cat /tmp/seed_$P/crate.txt)
 SD=/tmp/seed_$P
 W=/tmp/confirm_$P
 rm -rf $W; git -C /repo worktree prune; git -C /repo worktree add -q --detach $W HEAD || exit 3
